@@ -302,3 +302,214 @@ impl<const P: usize> Queryable for Sim<P> {
 }
 
 impl<const P: usize> JsonPath for Sim<P> {}
+
+// ---------------------------------------------------------------------------------------------
+// ShareDoc: a third faithful view, with structural sharing. Equal subtrees are one allocation
+// (hash-consing, as resolved YAML aliases or interned configuration trees would be), and the
+// members null / true / false of an object are flyweights: one value per thread handed out at every
+// position. The trait never says where a `Self` lives, so a node's address is not its position.
+
+use std::rc::Rc;
+
+pub enum SNode {
+    Null,
+    Bool(bool),
+    Int(i64),
+    Float(f64),
+    Str(String),
+    Arr(Vec<ShareDoc>),
+    Obj(Vec<(String, ShareDoc)>),
+}
+
+#[derive(Clone)]
+pub struct ShareDoc(pub Rc<SNode>);
+
+thread_local! {
+    static FLY: [&'static ShareDoc; 3] = [
+        Box::leak(Box::new(ShareDoc(Rc::new(SNode::Null)))),
+        Box::leak(Box::new(ShareDoc(Rc::new(SNode::Bool(true))))),
+        Box::leak(Box::new(ShareDoc(Rc::new(SNode::Bool(false))))),
+    ];
+}
+
+fn flyweight(v: &ShareDoc) -> Option<&'static ShareDoc> {
+    let i = match &*v.0 {
+        SNode::Null => 0,
+        SNode::Bool(true) => 1,
+        SNode::Bool(false) => 2,
+        _ => return None,
+    };
+    Some(FLY.with(|f| f[i]))
+}
+
+impl ShareDoc {
+    pub fn from_value(v: &Value) -> ShareDoc {
+        fn build(v: &Value, pool: &mut std::collections::HashMap<String, Rc<SNode>>) -> ShareDoc {
+            let key = v.to_string();
+            if let Some(n) = pool.get(&key) {
+                return ShareDoc(n.clone());
+            }
+            let node = match v {
+                Value::Null => SNode::Null,
+                Value::Bool(b) => SNode::Bool(*b),
+                Value::Number(n) => match n.as_i64() {
+                    Some(i) => SNode::Int(i),
+                    None => SNode::Float(n.as_f64().unwrap_or(0.0)),
+                },
+                Value::String(s) => SNode::Str(s.clone()),
+                Value::Array(a) => SNode::Arr(a.iter().map(|x| build(x, pool)).collect()),
+                Value::Object(o) => SNode::Obj(o.iter().map(|(k, x)| (k.clone(), build(x, pool))).collect()),
+            };
+            let rc = Rc::new(node);
+            // integers and floats that print alike must not be merged (1 and 1.0 print differently in
+            // serde_json, so the text key is safe)
+            pool.insert(key, rc.clone());
+            ShareDoc(rc)
+        }
+        build(v, &mut std::collections::HashMap::new())
+    }
+    pub fn to_value(&self) -> Value {
+        match &*self.0 {
+            SNode::Null => Value::Null,
+            SNode::Bool(b) => Value::Bool(*b),
+            SNode::Int(i) => Value::Number(Number::from(*i)),
+            SNode::Float(f) => Number::from_f64(*f).map(Value::Number).unwrap_or(Value::Null),
+            SNode::Str(s) => Value::String(s.clone()),
+            SNode::Arr(a) => Value::Array(a.iter().map(|x| x.to_value()).collect()),
+            SNode::Obj(o) => {
+                let mut m = Map::new();
+                for (k, v) in o {
+                    m.insert(k.clone(), v.to_value());
+                }
+                Value::Object(m)
+            }
+        }
+    }
+    /// every address a returned reference may legitimately have: wrappers inside the tree and the flyweights
+    pub fn addresses(&self, out: &mut std::collections::HashSet<usize>) {
+        out.insert(self as *const ShareDoc as usize);
+        FLY.with(|f| {
+            for x in f.iter() {
+                out.insert(*x as *const ShareDoc as usize);
+            }
+        });
+        match &*self.0 {
+            SNode::Arr(a) => a.iter().for_each(|x| x.addresses(out)),
+            SNode::Obj(o) => o.iter().for_each(|(_, x)| x.addresses(out)),
+            _ => {}
+        }
+    }
+}
+
+impl Default for ShareDoc {
+    fn default() -> Self {
+        if personality().default_is_null() {
+            ShareDoc(Rc::new(SNode::Null))
+        } else {
+            ShareDoc(Rc::new(SNode::Str("<default>".into())))
+        }
+    }
+}
+impl fmt::Debug for ShareDoc {
+    fn fmt(&self, f: &mut fmt::Formatter<'_>) -> fmt::Result {
+        if personality().debug_like_value() {
+            write!(f, "{:?}", self.to_value())
+        } else {
+            write!(f, "ShareDoc#opaque")
+        }
+    }
+}
+impl PartialEq for ShareDoc {
+    fn eq(&self, other: &Self) -> bool {
+        // the same relation as Value's, computed structurally (pointer equality is only a shortcut)
+        Rc::ptr_eq(&self.0, &other.0) || self.to_value() == other.to_value()
+    }
+}
+impl From<&str> for ShareDoc {
+    fn from(s: &str) -> Self {
+        ShareDoc(Rc::new(SNode::Str(s.to_string())))
+    }
+}
+impl From<String> for ShareDoc {
+    fn from(s: String) -> Self {
+        ShareDoc(Rc::new(SNode::Str(s)))
+    }
+}
+impl From<bool> for ShareDoc {
+    fn from(b: bool) -> Self {
+        ShareDoc(Rc::new(SNode::Bool(b)))
+    }
+}
+impl From<i64> for ShareDoc {
+    fn from(i: i64) -> Self {
+        ShareDoc(Rc::new(SNode::Int(i)))
+    }
+}
+impl From<f64> for ShareDoc {
+    fn from(f: f64) -> Self {
+        ShareDoc(Rc::new(if f.is_finite() { SNode::Float(f) } else { SNode::Null }))
+    }
+}
+impl From<Vec<ShareDoc>> for ShareDoc {
+    fn from(v: Vec<ShareDoc>) -> Self {
+        ShareDoc(Rc::new(SNode::Arr(v)))
+    }
+}
+
+impl Queryable for ShareDoc {
+    fn get(&self, key: &str) -> Option<&Self> {
+        let b = key.as_bytes();
+        let key = if b.len() >= 2 && ((b[0] == b'\'' && b[b.len() - 1] == b'\'') || (b[0] == b'"' && b[b.len() - 1] == b'"')) { &key[1..key.len() - 1] } else { key };
+        match &*self.0 {
+            SNode::Obj(o) => o.iter().find(|(k, _)| k == key).map(|(_, v)| flyweight(v).unwrap_or(v)),
+            _ => None,
+        }
+    }
+    fn as_array(&self) -> Option<&Vec<Self>> {
+        match &*self.0 {
+            SNode::Arr(a) => Some(a),
+            _ => None,
+        }
+    }
+    fn as_object(&self) -> Option<Vec<(&String, &Self)>> {
+        match &*self.0 {
+            SNode::Obj(o) => Some(o.iter().map(|(k, v)| (k, flyweight(v).unwrap_or(v))).collect()),
+            _ => None,
+        }
+    }
+    fn as_str(&self) -> Option<&str> {
+        match &*self.0 {
+            SNode::Str(s) => Some(s.as_str()),
+            _ => None,
+        }
+    }
+    fn as_i64(&self) -> Option<i64> {
+        match &*self.0 {
+            SNode::Int(i) => Some(*i),
+            _ => None,
+        }
+    }
+    fn as_f64(&self) -> Option<f64> {
+        match &*self.0 {
+            SNode::Float(f) => Some(*f),
+            SNode::Int(i) if personality().f64_for_ints() => Some(*i as f64),
+            _ => None,
+        }
+    }
+    fn as_bool(&self) -> Option<bool> {
+        match &*self.0 {
+            SNode::Bool(b) => Some(*b),
+            _ => None,
+        }
+    }
+    fn null() -> Self {
+        ShareDoc(Rc::new(SNode::Null))
+    }
+    fn extension_custom(name: &str, args: Vec<Cow<Self>>) -> Self {
+        let vals: Vec<Value> = args.iter().map(|a| a.as_ref().to_value()).collect();
+        let cows: Vec<Cow<Value>> = vals.iter().map(Cow::Borrowed).collect();
+        ShareDoc::from_value(&<Value as Queryable>::extension_custom(name, cows))
+    }
+}
+
+impl JsonPath for ShareDoc {}
